@@ -508,12 +508,16 @@ def one_program(items, j):
     return "\n".join(aliases + [", ".join(steps)])
 
 
-def hist_case(workers, lines):
-    return "(hist %d (mods) %s)" % (workers, " ".join(sexpr.quote(l) for l in lines))
+def mods_text(mods):
+    return "(mods%s)" % "".join(" (mod %s %s)" % (sexpr.quote(k), sexpr.quote(v)) for k, v in sorted((mods or {}).items()))
 
 
-def one_case(workers, src):
-    return "(one %d (mods) %s)" % (workers, sexpr.quote(src))
+def hist_case(workers, lines, mods=None):
+    return "(hist %d %s %s)" % (workers, mods_text(mods), " ".join(sexpr.quote(l) for l in lines))
+
+
+def one_case(workers, src, mods=None):
+    return "(one %d %s %s)" % (workers, mods_text(mods), sexpr.quote(src))
 
 
 def parse_session(out):
@@ -621,6 +625,23 @@ def check_history(items, prefix_out, sessions, splits):
             seen_nil = True
     compared = 0
     finals = []
+    if len(sessions) == len(splits) + 1:
+        # rejected lines must be inert: the session in which they were never entered yields, line by
+        # line, what the finest splitting of the full history yields on its accepted lines, and ends
+        # with the same variables (modules first imported by a rejected line included)
+        twin = parse_session(sessions[-1])
+        full = parse_session(sessions[0])
+        kept = [it for it in items if it["kind"] != "reject"]
+        if twin is not None and full is not None and len(full) == len(items) and len(splits[0]) == len(items) - 1:
+            accepted = [d for it, d in zip(items, full) if it["kind"] != "reject"]
+            if len(twin) != len(kept):
+                raise Problem("generator", "the session without the rejected lines stopped early", dict(session=sessions[-1][:2000]))
+            for it, a, t in zip(kept, accepted, twin):
+                if a["outcome"] != t["outcome"] or observable(a) != observable(t):
+                    raise Problem("impl-violation", "a line behaves differently in a session that saw a rejected line before it and in one that never did",
+                                  dict(lines=[x["src"] for x in items], at=it["src"], with_rejected=a["outcome"], without_rejected=t["outcome"],
+                                       vars_with=a.get("vars"), vars_without=t.get("vars")))
+        sessions = sessions[:-1]
     for cuts, out in zip(splits, sessions):
         lines = lines_of(items, cuts)
         sess = parse_session(out)
@@ -652,6 +673,9 @@ def check_history(items, prefix_out, sessions, splits):
                     raise Problem("impl-violation", "an alias-only line changed variables or the stored result",
                                   dict(lines=[l for l, _ in lines], at=src))
             else:
+                if oc[0] in ("compile-error", "parse-error") and not nil_before[j] and prefix_out.get(j, [None])[0] == "ok":
+                    raise Problem("impl-violation", "the REPL rejects a line that is accepted as the same step of the one program: %s" % json.dumps(oc),
+                                  dict(lines=[l for l, _ in lines], at=src, one_program=prefix_out[j], program=one_program(items, j)))
                 if oc[0] != "ok":
                     raise Problem("impl-violation" if oc[0] in ("err", "panic", "env-error", "timeout") else "generator",
                                   "a generated step was not evaluated: %s" % json.dumps(oc), dict(lines=[l for l, _ in lines], at=src))
@@ -677,11 +701,15 @@ def check_history(items, prefix_out, sessions, splits):
     return compared
 
 
-def run_real(ctx, exe, items, workers, limit, rng):
+def run_real(ctx, exe, items, workers, limit, rng, mods=None):
+    """Cases for one history: the one-program prefixes, one REPL session per splitting and, when the
+    history has rejected lines, a last "twin" session in which they were never entered (finest split)."""
     splits, nfree = splittings(rng, items, limit)
-    cases = [one_case(workers, one_program(items, j)) if items[j]["kind"] == "step" else None for j in range(len(items))]
+    cases = [one_case(workers, one_program(items, j), mods) if items[j]["kind"] == "step" else None for j in range(len(items))]
     idx = [j for j, c in enumerate(cases) if c]
-    hcases = [hist_case(workers, [l for l, _ in lines_of(items, c)]) for c in splits]
+    hcases = [hist_case(workers, [l for l, _ in lines_of(items, c)], mods) for c in splits]
+    if any(it["kind"] == "reject" for it in items) and any(it["kind"] != "reject" for it in items):
+        hcases.append(hist_case(workers, [it["src"] for it in items if it["kind"] != "reject"], mods))
     return splits, nfree, idx, [cases[j] for j in idx], hcases
 
 
@@ -707,12 +735,15 @@ def evaluate_batch(ctx, exe, batch):
     return res, len(lines)
 
 
-def shrink(ctx, exe, items, workers, rng):
-    """Remove lines while the history still fails with an impl-violation."""
+def shrink(ctx, exe, items, workers, rng, mods=None):
+    """Remove lines while the history still fails with an impl-violation (the values the steps were
+    built to have are dropped: they are stale once a line is removed)."""
+    items = [dict(it, expect=None) for it in items]
+
     def fails(its):
         if not its:
             return None
-        splits, _, idx, oc, hc = run_real(ctx, exe, its, workers, 8, rng)
+        splits, _, idx, oc, hc = run_real(ctx, exe, its, workers, 8, rng, mods)
         (res,), _ = evaluate_batch(ctx, exe, [dict(ocases=oc, hcases=hc, idx=idx)])
         try:
             check_history(its, res[0], res[1], splits)
@@ -729,7 +760,7 @@ def shrink(ctx, exe, items, workers, rng):
                 best = cand
                 changed = True
                 break
-    return best, fails(best)
+    return best, (fails(best) if len(best) < len(items) else None)
 
 
 def known_probes(ctx, exe):
